@@ -196,6 +196,9 @@ func (t *translator) leanType(ty types.Type) string {
 			}
 			return "R_" + name
 		}
+		if pt, ok := updaterOf(u); ok {
+			return "(" + t.leanType(pt) + " → " + t.leanType(pt) + ")"
+		}
 		return t.leanType(u.Underlying())
 	case *types.Alias:
 		return t.leanType(types.Unalias(u))
@@ -266,6 +269,34 @@ func (t *translator) leanType(ty types.Type) string {
 	}
 	fail("type %s", ty)
 	return ""
+}
+
+// updaterOf: a NAMED function type `func(*S)` for a struct S passed by value elsewhere (decode.DecodeOption).  A value
+// of such a type whose origin is unknown (an element of a caller-supplied list) is modelled as a function `S → S` on the
+// pointee: all the translated code does with it is call it on a pointer and carry on with what the pointee then holds.
+func updaterOf(ty types.Type) (types.Type, bool) {
+	n, ok := ty.(*types.Named)
+	if !ok {
+		return nil, false
+	}
+	sig, ok := n.Underlying().(*types.Signature)
+	if !ok || sig.Variadic() || sig.Params().Len() != 1 || sig.Results().Len() != 0 {
+		return nil, false
+	}
+	pt, ok := sig.Params().At(0).Type().Underlying().(*types.Pointer)
+	if !ok || !isStruct(pt.Elem()) || !firstOrder(pt.Elem()) {
+		return nil, false
+	}
+	return pt.Elem(), true
+}
+
+func isUpdaterSlice(ty types.Type) bool {
+	sl, ok := ty.Underlying().(*types.Slice)
+	if !ok {
+		return false
+	}
+	_, ok = updaterOf(sl.Elem())
+	return ok
 }
 
 func isFuncSlice(ty types.Type) bool {
@@ -1675,6 +1706,23 @@ func (c *ctx) call(s *state, x *ssa.Call, d int) {
 		if v.fnNil {
 			panic(pathPanics{}) // calling the nil function: this path panics
 		}
+		if pt, ok := updaterOf(com.Value.Type()); ok && v.fn == nil && v.expr != "" && len(com.Args) == 1 {
+			// an option of unknown origin applied to a pointer: a function on the pointee
+			av := c.val(s, com.Args[0])
+			if av.ptr == nil || av.ofield != "" {
+				fail("calling a function value on an unknown pointer")
+			}
+			pp := &ptrv{cell: s.cells[av.ptr.cell.id], path: av.ptr.path}
+			if pp.cell == nil {
+				fail("calling a function value on a pointer to consumed memory")
+			}
+			c.t.leanType(pt)
+			c.tmp++
+			name := fmt.Sprintf("%su%d", c.prefix, c.tmp)
+			fmt.Fprintf(&c.out, "%slet %s := (%s %s)\n", ind(d), name, v.expr, c.load(pp))
+			c.store(pp, name)
+			return
+		}
 		if v.fn == nil && c.forceCallee != nil {
 			callee = c.forceCallee
 		} else {
@@ -1709,6 +1757,9 @@ func (c *ctx) call(s *state, x *ssa.Call, d int) {
 		if isFuncSlice(a.Type()) {
 			av := c.val(s, a)
 			if !av.emptyFuncs {
+				if isUpdaterSlice(a.Type()) && av.expr != "" {
+					continue // an ordinary argument: a list of functions on the pointee
+				}
 				fail("passing a list of function values that is not known to be empty")
 			}
 			if spec == nil {
@@ -1771,7 +1822,7 @@ func (c *ctx) call(s *state, x *ssa.Call, d int) {
 		if _, isSig := a.Type().Underlying().(*types.Signature); isSig {
 			continue // fixed by specialisation
 		}
-		if isFuncSlice(a.Type()) {
+		if isFuncSlice(a.Type()) && (av.emptyFuncs || !isUpdaterSlice(a.Type())) {
 			continue
 		}
 		if av.fnNil {
@@ -2530,7 +2581,8 @@ func (c *ctx) runInstrs(s *state, b *ssa.BasicBlock, start int, onPath map[*ssa.
 		in := b.Instrs[idx]
 		if call, ok := in.(*ssa.Call); ok && !call.Common().IsInvoke() && call.Common().StaticCallee() == nil {
 			if _, isB := call.Common().Value.(*ssa.Builtin); !isB {
-				if v := c.val(s, call.Common().Value); v.fn == nil && !v.fnNil && v.expr != "" {
+				_, isUpd := updaterOf(call.Common().Value.Type())
+				if v := c.val(s, call.Common().Value); v.fn == nil && !v.fnNil && v.expr != "" && !isUpd {
 					// a function value known only by name (it came back from a call: the decoder's next mode): one branch per
 					// function of the package with that signature, compared by name
 					sig, ok := call.Common().Value.Type().Underlying().(*types.Signature)
@@ -3037,11 +3089,13 @@ func (t *translator) translateSpec(fn *ssa.Function, spec map[int]*ssa.Function)
 		s := &state{env: map[ssa.Value]sym{}, cells: map[int]*cell{}}
 		for i, p := range fn.Params {
 			if isFuncSlice(p.Type()) {
-				if _, fixed := spec[i]; !fixed {
+				if _, fixed := spec[i]; fixed {
+					s.env[p] = sym{expr: "([] : List Go.FnRef)", emptyFuncs: true, typ: p.Type()}
+					continue
+				}
+				if !isUpdaterSlice(p.Type()) {
 					fail("parameter of type %s (a list of function values, not fixed to empty)", p.Type())
 				}
-				s.env[p] = sym{expr: "([] : List Go.FnRef)", emptyFuncs: true, typ: p.Type()}
-				continue
 			}
 			if _, isSig := p.Type().Underlying().(*types.Signature); isSig {
 				f, fixed := spec[i]
@@ -3157,7 +3211,9 @@ func (t *translator) translateSpec(fn *ssa.Function, spec map[int]*ssa.Function)
 			continue
 		}
 		if isFuncSlice(p.Type()) {
-			continue
+			if _, fixed := fi.spec[i]; fixed || !isUpdaterSlice(p.Type()) {
+				continue
+			}
 		}
 		if f, fixed := fi.spec[i]; fixed && f == nil {
 			if _, isI := p.Type().Underlying().(*types.Interface); isI {
@@ -3255,7 +3311,13 @@ func main() {
 		fi := t.translate(fn)
 		// a function that takes a printing callback (`p printer`, called only under `if p != nil`) is also translated
 		// with that callback fixed to nil: what Decode runs
-		if fi.err != "" {
+		hasOpts := false
+		for _, p := range fn.Params {
+			if isUpdaterSlice(p.Type()) {
+				hasOpts = true // also translated with no options given
+			}
+		}
+		if fi.err != "" || hasOpts {
 			spec := map[int]*ssa.Function{}
 			for i, p := range fn.Params {
 				if n, ok := p.Type().(*types.Named); ok && n.Obj().Name() == "printer" {
